@@ -15,4 +15,23 @@ CHECKS = {
     },
 }
 
+CHECKS["C04"] = {
+    "text": "Lean theorems over the exact-rational model of the mixture likelihood: invariance under haplotype and read permutations, "
+            "count k == k copies, zero-count neutrality, rearrangement-by-indirection == likelihood of the rearranged genotype, NaN cells are "
+            "factor one, and the log-space value is log(lik); model tied to log_likelihood / log_likelihood_structural_change / "
+            "log_likelihood_alleles (jitted and py_func) by differential runs at 1e-9.",
+    "design_ref": "DESIGN.md section 4, C04",
+    "note": _NOTE + "A zero-probability read with count 0 (NaN in the code) is outside the generated domain of the assemble/calling path.",
+    "technique": "Lean 4 proof (list permutation / product algebra over Rat, Real.log link) + differential correspondence + metamorphic oracles",
+}
+CHECKS["C05"] = {
+    "text": "Lean theorems: Chu-Vandermonde for rising factorials and the binomial analogue give sum-to-one of the Dirichlet-multinomial / multinomial "
+            "prior over all count vectors for every ploidy, allele number, F in [0,1) and frequency vector (zeros allowed); the single-allele prior is "
+            "the exact urn conditional; unordered pmf = #orderings x ordered pmf; assemble prior invariances; Gamma-ratio = rising factorial. Model tied to "
+            "the three prior functions by exhaustive enumeration of small genotype spaces at 1e-9.",
+    "design_ref": "DESIGN.md section 4, C05",
+    "note": _NOTE + "lgamma/log/exp evaluation is compared, not proved; assemble==call(flat) is proved on instances and checked by correspondence in general.",
+    "technique": "Lean 4 proof (Chu-Vandermonde by antidiagonal induction, convolution over compositions, Polya urn) + exhaustive differential correspondence",
+}
+
 NOT_APPLICABLE = {}
